@@ -80,7 +80,7 @@ func Start() *Engine {
 				logrus.Info("Update DB")
 				logrus.Infof("-> %#v", req.expr)
 				logrus.Infof("-> %s", req.expr)
-				value, err := req.expr.Eval(ctx, global)
+				value, err := evalUpdate(ctx, req.expr, global)
 				if err != nil {
 					req.failed <- err
 					continue
@@ -102,6 +102,16 @@ func Start() *Engine {
 	}()
 
 	return e
+}
+
+// evalUpdate evaluates an update expression, turning a panic during evaluation into an error.
+func evalUpdate(ctx context.Context, expr rel.Expr, global rel.Scope) (value rel.Value, err error) {
+	defer func() {
+		if r := recover(); r != nil {
+			err = errors.WrapPrefix(r, "update panic", 0)
+		}
+	}()
+	return expr.Eval(ctx, global)
 }
 
 // Stop stops the engine.
